@@ -222,6 +222,11 @@ func thorough(p *propDef, repo, verif string, known []KnownFinding) (int, map[st
 		}
 		vres = append(vres, map[string]interface{}{"variant": filepath.Base(r.file), "status": status, "report": r.out})
 	}
+	// (c) whole-patch inputs written by independent agents: seeded faults of this property must fire,
+	// behaviour-preserving refactorings (of any property's anchors) must leave this property silent.
+	pres, pfail := patchInputs(p, repo, verif)
+	info["patch_inputs"] = pres
+	failures = append(failures, pfail...)
 	info["variants"] = vres
 	info["variants_fired"] = nf
 	info["variants_stale"] = ns
@@ -234,6 +239,121 @@ func thorough(p *propDef, repo, verif string, known []KnownFinding) (int, map[st
 		return 1, info
 	}
 	return 0, info
+}
+
+// patchInputs applies each seeded/<P>-*/patch.diff and each benign/*/refactor*.diff to a scratch copy of the
+// repository sources (outside /repo and /verif, removed afterwards) and runs this property's rules on the copy.
+func patchInputs(p *propDef, repo, verif string) ([]map[string]interface{}, []string) {
+	type job struct {
+		patch  string
+		expect string // fire | silent
+		id     string
+	}
+	var jobs []job
+	seeds, _ := filepath.Glob(filepath.Join(verif, "seeded", p.id+"-*", "patch.diff"))
+	for _, s := range seeds {
+		expect := "fire"
+		if b, err := os.ReadFile(filepath.Join(filepath.Dir(s), "meta.json")); err == nil {
+			var m struct {
+				Expect string `json:"expect_verdict"`
+			}
+			if json.Unmarshal(b, &m) == nil && m.Expect != "" {
+				expect = m.Expect
+			}
+		}
+		jobs = append(jobs, job{s, expect, "seeded/" + filepath.Base(filepath.Dir(s))})
+	}
+	ben, _ := filepath.Glob(filepath.Join(verif, "benign", "*", "*.diff"))
+	sort.Strings(ben)
+	for _, b := range ben {
+		jobs = append(jobs, job{b, "silent", "benign/" + filepath.Base(filepath.Dir(b)) + "/" + strings.TrimSuffix(filepath.Base(b), ".diff")})
+	}
+	out := make([]map[string]interface{}, len(jobs))
+	var mu sync.Mutex
+	var failures []string
+	sem := make(chan struct{}, 8)
+	var wg sync.WaitGroup
+	for i, j := range jobs {
+		wg.Add(1)
+		go func(i int, j job) {
+			defer wg.Done()
+			sem <- struct{}{}
+			defer func() { <-sem }()
+			status, report := runPatch(p, repo, verif, j.patch, j.expect)
+			out[i] = map[string]interface{}{"input": j.id, "expect": j.expect, "status": status, "report": report}
+			if status == "missed" || status == "false-alarm" || status == "error" {
+				mu.Lock()
+				failures = append(failures, j.id+": "+status+" "+report)
+				mu.Unlock()
+			}
+		}(i, j)
+	}
+	wg.Wait()
+	sort.Strings(failures)
+	return out, failures
+}
+
+func runPatch(p *propDef, repo, verif, patch, expect string) (string, string) {
+	tmp, err := os.MkdirTemp("", "xcheck-patch-")
+	if err != nil {
+		return "error", err.Error()
+	}
+	defer os.RemoveAll(tmp)
+	cp := exec.Command("rsync", "-a", "--exclude", ".git", repo+"/", tmp+"/src/")
+	if out, err := cp.CombinedOutput(); err != nil {
+		return "error", "copy: " + string(out)
+	}
+	ap := exec.Command("patch", "-p1", "-s", "--no-backup-if-mismatch", "-i", patch)
+	ap.Dir = filepath.Join(tmp, "src")
+	if out, err := ap.CombinedOutput(); err != nil {
+		return "stale", "patch no longer applies: " + lastNonEmpty(string(out))
+	}
+	os.MkdirAll(filepath.Join(tmp, "verif"), 0o755)
+	if b, err := os.ReadFile(filepath.Join(verif, "known_findings.jsonl")); err == nil {
+		os.WriteFile(filepath.Join(tmp, "verif", "known_findings.jsonl"), b, 0o644)
+	}
+	cmd := exec.Command(os.Args[0], "-prop", p.id, "-repo", filepath.Join(tmp, "src"), "-verif", filepath.Join(tmp, "verif"))
+	o, err := cmd.CombinedOutput()
+	code := 0
+	if err != nil {
+		if ee, ok := err.(*exec.ExitError); ok {
+			code = ee.ExitCode()
+		} else {
+			return "error", err.Error()
+		}
+	}
+	var fired []string
+	for _, l := range strings.Split(string(o), "\n") {
+		if strings.HasPrefix(l, "VIOLATED ") || strings.HasPrefix(l, "UNDECIDED ") {
+			f := strings.Fields(l)
+			if len(f) > 1 {
+				fired = append(fired, f[1])
+			}
+		}
+	}
+	rep := strings.Join(fired, " ")
+	if len(rep) > 400 {
+		rep = rep[:400] + "…"
+	}
+	switch {
+	case code == 2 || code > 3:
+		return "error", lastNonEmpty(string(o))
+	case expect == "fire" && code == 1:
+		return "fired", rep
+	case expect == "fire":
+		return "missed", "no rule fired"
+	case code == 1:
+		return "false-alarm", rep
+	}
+	return "silent-as-expected", ""
+}
+
+func lastNonEmpty(s string) string {
+	lines := strings.Split(strings.TrimSpace(s), "\n")
+	if len(lines) == 0 {
+		return ""
+	}
+	return lines[len(lines)-1]
 }
 
 func lastLine(s string) string {
